@@ -1185,6 +1185,7 @@ impl ASN1Value {
             }
             (ASN1Type::ObjectIdentifier(_), ASN1Value::ObjectIdentifier(oid)) => {
                 Self::resolve_leading_oid_reference(oid, tlds, 0);
+                Self::resolve_integer_arcs(oid, tlds);
                 Ok(())
             }
             (ASN1Type::ObjectIdentifier(_), ASN1Value::LinkedNestedValue { value, .. })
@@ -1192,6 +1193,7 @@ impl ASN1Value {
             {
                 if let ASN1Value::ObjectIdentifier(oid) = &mut **value {
                     Self::resolve_leading_oid_reference(oid, tlds, 0);
+                    Self::resolve_integer_arcs(oid, tlds);
                 }
                 Ok(())
             }
@@ -1720,6 +1722,60 @@ impl ASN1Value {
         if let Some(mut referenced) = referenced {
             Self::resolve_leading_oid_reference(&mut referenced, tlds, depth + 1);
             oid.0.splice(0..1, referenced.0);
+        }
+    }
+
+    /// An arc of an object identifier value may be given by a reference to an INTEGER value
+    /// (X.680 32.3, NumberForm), as in `{ iso 3 six 1 }`. The number takes the place of the reference.
+    fn resolve_integer_arcs(
+        oid: &mut ObjectIdentifierValue,
+        tlds: &BTreeMap<String, ToplevelDefinition>,
+    ) {
+        fn integer_value(
+            value: &ASN1Value,
+            tlds: &BTreeMap<String, ToplevelDefinition>,
+            depth: usize,
+        ) -> Option<u128> {
+            match value {
+                ASN1Value::Integer(i) | ASN1Value::LinkedIntValue { value: i, .. } => {
+                    u128::try_from(*i).ok()
+                }
+                ASN1Value::LinkedNestedValue { value, .. } => integer_value(value, tlds, depth),
+                ASN1Value::ElsewhereDeclaredValue {
+                    module: None,
+                    identifier,
+                    parent: None,
+                } if depth < 64 => match tlds.get(identifier) {
+                    Some(ToplevelDefinition::Value(v)) => integer_value(&v.value, tlds, depth + 1),
+                    _ => None,
+                },
+                _ => None,
+            }
+        }
+        let root = match oid.0.first() {
+            Some(arc) => match (arc.name.as_deref(), arc.number) {
+                (Some("itu-t" | "ccitt"), _) | (_, Some(0)) => Some(0u8),
+                (Some("iso"), _) | (_, Some(1)) => Some(1u8),
+                _ => None,
+            },
+            None => None,
+        };
+        for arc in oid.0.iter_mut().skip(1) {
+            if arc.number.is_some() || ObjectIdentifierArc::well_known(arc.name.as_ref(), root).is_some() {
+                continue;
+            }
+            if let Some(ToplevelDefinition::Value(v)) = arc.name.as_ref().and_then(|n| tlds.get(n)) {
+                let is_integer = match &v.associated_type {
+                    ASN1Type::Integer(_) => true,
+                    ASN1Type::ElsewhereDeclaredType(e) => {
+                        matches!(e.root(tlds), Ok(ASN1Type::Integer(_)))
+                    }
+                    _ => false,
+                };
+                if is_integer {
+                    arc.number = integer_value(&v.value, tlds, 0);
+                }
+            }
         }
     }
 
